@@ -1,17 +1,54 @@
 // Wrapper TU for src/html/Quoting.cc (tier T2: the real text, C++ front end, stub dependency headers).
 // html_Quoting.cc is written into the build directory by the extraction step from the CURRENT /repo text.
 //
-// Static locals.  CBMC's C++ front end silently DROPS dynamic initialisers of static locals, and --dfcc / the
-// loop-contract pass havoc statics.  The extraction rules therefore hoist the four static locals of the real file to the
-// file-scope variables below and turn `static T x = init;` into `if (!x) x = init;` with the REAL initialiser text
+// Static locals.  CBMC's C++ front end silently DROPS dynamic initialisers of static locals, and the loop-contract pass
+// havocs statics.  The extraction rules therefore hoist the four static locals of the real file to the file-scope
+// variables below and turn `static T x = init;` into `if (!x) x = init;` with the REAL initialiser text
 // (C++: "initialised the first time control passes through the declaration"; both initialisers are never null).
 // The reference `escapeSequences` becomes a pointer.
+//
+// Two build modes (selected by the target's defines, see unit.json "wrap_defines"):
+//   default              html_quote calls the real EscapeSequences()      (target table_lemma)
+//   -DCV_ABSTRACT_TABLE  html_quote's call of EscapeSequences() is replaced by that function's CONTRACT as proved by
+//                        target table_lemma: "returns the static table; every entry is exactly spec_entry_exact".
+//                        The table is an arbitrary (havocked) object; each const access observes an entry that
+//                        satisfies the contract (assume at the point of use == the universally quantified contract,
+//                        html_quote only holds a const reference).  Reason: the concrete 2048-byte table makes
+//                        symex/SAT of the loop-contract problem explode (see the final report).
 #include "squid.h"
 #include "sbuf/SBuf.h"
+#include "spec_table.h"
+
+#ifdef CV_ABSTRACT_TABLE
+static inline void cv_assume_entry(const SBuf &e, unsigned long c)
+{
+#ifndef EXP_NOASSUME
+    __CPROVER_assume(spec_entry_exact((unsigned char)c, e.len_, e.store_));
+#endif
+}
+#define CV_ARRAY_CONST_ACCESS_HOOK(e, i) cv_assume_entry(e, i)
+#endif
 #include <array>
 
 std::array<SBuf, 256> *cv_escapeMap = nullptr;                 // EscapeSequences()::escapeMap
 const std::array<SBuf, 256> *cv_escapeSequences = nullptr;     // html_quote()::escapeSequences (a reference in the real text)
+
+#ifdef CV_ABSTRACT_TABLE
+static std::array<SBuf, 256> cv_abs_table;
+static const std::array<SBuf, 256> &cv_EscapeSequences_contract()
+{
+    if (!cv_escapeMap) {
+#ifndef EXP_NOHAVOC
+        __CPROVER_havoc_object(&cv_abs_table);                 // arbitrary contents ...
+#endif
+        cv_escapeMap = &cv_abs_table;
+    }
+    return *cv_escapeMap;                                      // ... constrained entry by entry at each const access
+}
+#define CV_TABLE_CALL(call) cv_EscapeSequences_contract()
+#else
+#define CV_TABLE_CALL(call) call
+#endif
 
 extern "C" {
 char *html_quote_buf = nullptr;                                // html_quote()::buf
@@ -27,13 +64,14 @@ size_t html_quote_bufsize = 0;                                 // html_quote()::
 static const std::array<SBuf, 256> *cv_last = nullptr;
 void cv_EscapeSequences(void) { cv_last = &EscapeSequences(); }          // calls the real function
 int cv_last_is_map(void) { return cv_last != nullptr && cv_last == cv_escapeMap; }
-unsigned cv_seq_len(unsigned char c) { return (unsigned)cv_last->elems[c].len_; }
-char cv_seq_byte(unsigned char c, unsigned k) { return cv_last->elems[c].store_[k]; }
+// raw reads (no access hook): what is stored, not what is assumed
+unsigned cv_seq_len(unsigned char c) { return (unsigned)const_cast<std::array<SBuf, 256> *>(cv_last)->elems[c].len_; }
+char cv_seq_byte(unsigned char c, unsigned k) { return const_cast<std::array<SBuf, 256> *>(cv_last)->elems[c].store_[k]; }
 // state of the hoisted statics
 int cv_statics_initial(void) { return cv_escapeMap == nullptr && cv_escapeSequences == nullptr && html_quote_buf == nullptr && html_quote_bufsize == 0; }
 void cv_statics_reset(void) { cv_escapeMap = nullptr; cv_escapeSequences = nullptr; html_quote_buf = nullptr; html_quote_bufsize = 0; }
 // the state a previous call of html_quote() leaves behind for `escapeSequences` (its initialiser, executed once)
-void cv_prior_call_bound_table(void) { if (!cv_escapeSequences) cv_escapeSequences = &EscapeSequences(); }
+void cv_prior_call_bound_table(void) { if (!cv_escapeSequences) cv_escapeSequences = &CV_TABLE_CALL(EscapeSequences()); }
 int cv_table_bound(void) { return cv_escapeSequences != nullptr && cv_escapeSequences == cv_escapeMap; }
 void cv_use_bound_table(void) { cv_last = cv_escapeSequences; }
 }
